@@ -44,8 +44,10 @@ Qed.
 Lemma xname_good a : 0 <= a -> good_nameb (s_xpre ++ print_nat a) = true.
 Proof.
   intros Ha. change s_xpre with [120; 95]. cbn [app good_nameb].
-  change (is_name_start 120) with true. cbn [forallb]. change (is_ident_char 95) with true.
-  rewrite (digits_ident _ (print_nat_digits a Ha)). reflexivity.
+  change (is_name_start 120) with true. cbn [andb].
+  pose proof (span_all is_ident_char (95 :: print_nat a) [] ) as E. rewrite app_nil_r in E.
+  rewrite E; [reflexivity | | exact I]. cbn [forallb]. change (is_ident_char 95) with true.
+  now rewrite (digits_ident _ (print_nat_digits a Ha)).
 Qed.
 
 Lemma name_of_good nm a : names_good nm -> 0 <= a -> good_nameb (name_of nm a) = true.
@@ -135,7 +137,7 @@ Proof.
 Qed.
 
 (* names separated by sep (one char) with optional blank *)
-Lemma l_names0 (sepc : Z) pad close h rest : is_ws sepc = false -> is_ident_char sepc = false ->
+Lemma l_names0 (sepc : Z) pad close h rest : is_ws sepc = false -> is_follow sepc = true ->
   (pad = [] \/ pad = [32]) -> nonneg h ->
   is_name_start (hd 0 close) = false -> close <> [] ->
   nic rest -> tok [sepc] rest = None -> (exists r, tok close rest = Some (tt, r)) ->
@@ -307,7 +309,7 @@ Lemma print_lit_hd z l : exists c r, print_lit nm z ++ l = c :: r /\ is_ws c = f
 Proof.
   unfold print_lit. destruct (z <? 0).
   - exists 110. eexists. split; [reflexivity|]. split; reflexivity.
-  - destruct (good_name_inv _ (lit_name_good nm z Hnm)) as (c & a & E & Hc & _). rewrite E. cbn [app].
+  - destruct (good_name_hd _ (lit_name_good nm z Hnm)) as (c & a & E & Hc). rewrite E. cbn [app].
     exists c. eexists. split; [reflexivity|]. unfold is_name_start, is_lower, is_ws, is_digit in *. lia.
 Qed.
 
@@ -434,7 +436,7 @@ Proof.
   - destruct head as [|x h]; cbn [is_nil negb].
     + eexists; eexists; split; [reflexivity | repeat split; discriminate].
     + inversion Hd; subst.
-      destruct (good_name_inv _ (name_of_good nm x Hnm H1)) as (c & a & E & Hc & _).
+      destruct (good_name_hd _ (name_of_good nm x Hnm H1)) as (c & a & E & Hc).
       assert (Hc3 : is_ws c = false /\ c <> 37 /\ c <> 91) by (unfold is_name_start, is_lower, is_ws in *; lia).
       rewrite app_nil_l. destruct h; [cbn [sep_list] | rewrite sep_list_cons]; rewrite E; cbn [app];
         exists c; eexists; (split; [reflexivity | exact Hc3]).
